@@ -35,6 +35,12 @@ def check(rs: dict) -> list[tuple[str, str, Any]]:
     from explorerscript.ssb_script.ssb_converting.ssb_decompiler import SsbScriptSsbDecompiler
 
     infos, ops, coros = K.fresh(rs)
+    # a caller may hand over a table of named coroutines that also has entries for ids whose routine is NOT a coroutine (e.g. the
+    # game's whole common-routine table): such entries mean nothing, the kind of the routine decides
+    from explorerscript.ssb_converting.ssb_data_types import SsbCoroutine, SsbRoutineType
+
+    if len(infos) % 2 == 0:
+        coros = list(coros) + [SsbCoroutine(i, f"DECOY_{i}") for i, info in enumerate(infos) if info.type != SsbRoutineType.COROUTINE]
     before = K.snapshot(ops)
     ref_infos, ref_ops, ref_coros = K.fresh(rs)  # untouched copy to compare against
     r = K.guarded(lambda: SsbScriptSsbDecompiler(infos, ops, coros).convert())
